@@ -61,6 +61,16 @@ func outsSig(outs []world.Out) string {
 	return strings.Join(s, " ; ")
 }
 
+// stripData removes the data section of a dump (see linScenarioOpt).
+func stripData(d string) string {
+	i := strings.Index(d, " data=[")
+	j := strings.Index(d, "] local=")
+	if i < 0 || j < i {
+		return d
+	}
+	return d[:i] + d[j+1:]
+}
+
 func stripTimers(d string) string {
 	i := strings.Index(d, " timers=[")
 	if i < 0 {
@@ -71,6 +81,15 @@ func stripTimers(d string) string {
 }
 
 func linScenario(prelude []string, threads [][]string, after []string) *engine.SScenario {
+	return linScenarioOpt(prelude, threads, after, false)
+}
+
+// linScenarioOpt: with samePeerTeardown set, one thread removes a connection while the other thread is the
+// reader of that very connection, still processing a message. What the in-flight message is answered and
+// whether a write is still applied is left open then (the message may find half of the peer's state gone);
+// what counts is the teardown itself: afterwards registries, bookkeeping and the service to the other peer are
+// those of a sequential execution, and nothing is written to the removed connection during the probes.
+func linScenarioOpt(prelude []string, threads [][]string, after []string, samePeerTeardown bool) *engine.SScenario {
 	var parts []string
 	for _, t := range threads {
 		parts = append(parts, strings.Join(t, ","))
@@ -118,6 +137,9 @@ func linScenario(prelude []string, threads [][]string, after []string) *engine.S
 				}
 				probes := outsStr(rw.w.Since(m2))
 				d2, _ := rw.dump()
+				if samePeerTeardown {
+					return "written={(left open)} state={" + stripData(stripTimers(d)) + " ;; after the probes: " + stripData(stripTimers(d2)) + "} probes={" + probes + "}"
+				}
 				return "written={" + during + "} state={" + stripTimers(d) + " ;; after the probes: " + stripTimers(d2) + "} probes={" + probes + "}"
 			}
 			var refs []string
